@@ -143,7 +143,9 @@ def check_stream(ctx: Ctx, res: Result):
 
 
 # --------------------------------------------------------------------------- fs
-NAMES = ["a", "b", "0/x", "0/y", "replicated/m/w", "batched/3f2a", "d1/d2/d3/f", "sharded/t_0_0", "ü/ß", "a b/c"]
+NAMES = ["a", "b", "0/x", "0/y", "replicated/m/w", "batched/3f2a", "d1/d2/d3/f", "sharded/t_0_0", "ü/ß", "a b/c",
+         # directories whose names are string prefixes of one another without being ancestors, at several depths
+         "ab/c/x", "ab/x", "0/s/10/e", "0/s/1/e", "0/s/1/f", "p/qr/s", "p/q/s", "d1/d2/g", "d1/d/h", "d1/d2/d3x/i"]
 
 
 def fs_scenario(ctx: Ctx, small: bool):
@@ -185,7 +187,8 @@ def fs_scenario(ctx: Ctx, small: bool):
     return writes, overwrite, reads, final
 
 
-def run_fs(root: str, writes, overwrite, reads):
+def run_fs(root: str, writes, overwrite, reads, seq=False, werrs=None):
+    werrs = werrs if werrs is not None else []
     from torchsnapshot.io_types import ReadIO, WriteIO
     from torchsnapshot.storage_plugins.fs import FSStoragePlugin
 
@@ -194,9 +197,22 @@ def run_fs(root: str, writes, overwrite, reads):
     async def main():
         def buf(d, as_mv):
             return memoryview(bytearray(d)) if as_mv else d
-        await asyncio.gather(*[plugin.write(WriteIO(path=p, buf=buf(d, mv))) for p, d, mv in writes])
+        if seq:
+            for p, d, mv in writes:                       # one after the other, in the given order
+                try:
+                    await plugin.write(WriteIO(path=p, buf=buf(d, mv)))
+                except Exception as e:  # noqa
+                    werrs.append((p, f"{type(e).__name__}: {str(e)[:120]}"))
+        else:
+            rs = await asyncio.gather(*[plugin.write(WriteIO(path=p, buf=buf(d, mv))) for p, d, mv in writes], return_exceptions=True)
+            for (p, _, _), e in zip(writes, rs):
+                if isinstance(e, BaseException):
+                    werrs.append((p, f"{type(e).__name__}: {str(e)[:120]}"))
         for p, d, mv in overwrite:
-            await plugin.write(WriteIO(path=p, buf=buf(d, mv)))
+            try:
+                await plugin.write(WriteIO(path=p, buf=buf(d, mv)))
+            except Exception as e:  # noqa
+                werrs.append((p, f"{type(e).__name__}: {str(e)[:120]}"))
         out = []
         for p, r in reads:
             rio = ReadIO(path=p, byte_range=r)
@@ -223,11 +239,17 @@ def check_fs(ctx: Ctx, res: Result):
     for i in range(nscen):
         writes, overwrite, reads, final = fs_scenario(ctx, small=(i % 3 != 0))
         root = ctx.scratch("fs")
+        seq = ctx.rng.random() < 0.5
+        werrs = []
         try:
-            out = run_fs(root, writes, overwrite, reads)
+            out = run_fs(root, writes, overwrite, reads, seq=seq, werrs=werrs)
         finally:
             shutil.rmtree(root, ignore_errors=True)
-        res.count("fs.n_writes", len(writes) + len(overwrite))
+        res.count("fs.n_writes", len(writes) + len(overwrite)); res.count("fs.write_mode", "sequential" if seq else "concurrent")
+        for p, e in werrs:
+            res.failures.append(Failure(f"C20:fs-write-raised:{e.split(':')[0]}", f"write of {p!r} raised {e} (writes in order: {[w[0] for w in writes]}, {'sequential' if seq else 'concurrent'})",
+                                        {"kind": "fs", "writes": [(a, list(b), c) for a, b, c in writes], "overwrite": [(a, list(b), c) for a, b, c in overwrite],
+                                         "read": [writes[0][0], None], "seq": seq}))
         for (p, r), o in zip(reads, out):
             res.count("fs.read_kind", "missing" if p not in final else ("whole" if r is None else
                       ("past-eof" if r[1] > len(final[p]) else "ranged")))
@@ -286,10 +308,13 @@ def replay(ctx: Ctx, data):
     p, r = data["read"]
     r = None if r is None else tuple(r)
     root = ctx.scratch("fs")
+    werrs = []
     try:
-        out = run_fs(root, writes, over, [(p, r)])[0]
+        out = run_fs(root, writes, over, [(p, r)], seq=bool(data.get("seq")), werrs=werrs)[0]
     finally:
         shutil.rmtree(root, ignore_errors=True)
+    if werrs:
+        return Failure(f"C20:fs-write-raised:{werrs[0][1].split(':')[0]}", f"write of {werrs[0][0]!r} raised {werrs[0][1]}", data)
     final = {a: b for a, b, _ in writes + over}
     if p not in final:
         return Failure("C20:fs-missing-path-no-error", "missing path read succeeded", data) if out is not None else None
